@@ -193,6 +193,7 @@ class HttpCfg:
     ext_cap: int | None = None
     prefix: str = ""
     cache_entries: int = 4096
+    ipc_validation: str | None = None  # None = the library default on both sides; else "none" | "standard" | "full"
 
     def label(self) -> str:
         return f"http(cap={self.cap},comp={self.compression},ext={self.ext_threshold},extc={self.ext_compression})"
@@ -242,8 +243,11 @@ def run_http_leg(ctx: Any, svc: Service, calls: list[Call], cfg: HttpCfg, *, lab
                                       compression_level=None if cfg.compression == "off" else 1,
                                       call_state_cache_entries=cfg.cache_entries)
             kw.update(app_kwargs or {})
+            from vgi_rpc.utils import IpcValidation
+
+            ipcv = {} if cfg.ipc_validation is None else {"ipc_validation": IpcValidation[cfg.ipc_validation.upper()]}
             cluster = s2.Cluster(ctx, sched, svc.protocol, svc.impl_cls, n_workers=n_workers, app_kwargs=kw,
-                                 external_config=ext_cfg)
+                                 external_config=ext_cfg, server_kwargs=ipcv)
             res.extra["cluster"] = cluster
             res.extra["storage"] = storage
             net = s2.NetClient(cluster, prefix=cfg.prefix)
@@ -253,7 +257,7 @@ def run_http_leg(ctx: Any, svc: Service, calls: list[Call], cfg: HttpCfg, *, lab
                 p = proxies.get(id(cs))
                 if p is None:
                     p = proxies[id(cs)] = _HttpProxy(cs.protocol, net, cfg.prefix, ob.on_log, external_config=ext_cfg,
-                                                     compression_level=None if cfg.compression == "off" else 1)
+                                                     compression_level=None if cfg.compression == "off" else 1, **ipcv)
                 try:
                     tr = drive(p, cs, c, ob)
                 except Exception as exc:  # noqa: BLE001
